@@ -60,7 +60,7 @@ ASSUMPTIONS = [
 
 PREFIXES = (REPO.rstrip('/') + '/ombott/', echo.__file__.rsplit('/', 1)[0] + '/')
 KINDS = ['echo_get', 'echo_post', 'echo_head', 'upload', 'raise_err', 'raise_resp', 'teapot', 'crash', 'gen',
-         'notfound', 'notallowed', 'json404', 'badchunk', 'chunked_ok', 'big', 'badpath', 'echo_put', 'hookcrash', 'badchunk_json', 'badjson', 'goodjson', 'badchunk_sizeline', 'busy_str', 'limit_num']
+         'notfound', 'notallowed', 'json404', 'badchunk', 'chunked_ok', 'big', 'badpath', 'echo_put', 'hookcrash', 'badchunk_json', 'badjson', 'goodjson', 'badchunk_sizeline', 'busy_str', 'limit_num', 'upload_typed', 'upload_plain', 'badmultipart']
 _MARK = re.compile(r'Z\d+z')
 
 
@@ -98,6 +98,18 @@ def environ_of(spec):
                 f'--{b}\r\nContent-Disposition: form-data; name="up"; filename="n{m}.bin"\r\n'
                 f'Content-Type: application/octet-stream\r\n\r\n' + (m * 40) + f'\r\n--{b}--\r\n').encode()
         kw = {'content_length': len(body), 'content_type': f'multipart/form-data; boundary={b}'}
+    elif kind in ('upload_typed', 'upload_plain'):
+        method, path = 'POST', '/upload/' + m
+        b = 'bnd' + m
+        extra = (f'Content-Type: image/png\r\nX-Upload-Token: t{m}\r\n' if kind == 'upload_typed' else '')
+        body = (f'--{b}\r\nContent-Disposition: form-data; name="up"; filename="n{m}.bin"\r\n{extra}\r\n'
+                + (m * 5) + f'\r\n--{b}--\r\n').encode()
+        kw = {'content_length': len(body), 'content_type': f'multipart/form-data; boundary={b}'}
+    elif kind == 'badmultipart':
+        # does not start with its boundary: a markup error that has no errors_map entry of its own class
+        method, path = 'POST', '/upload/' + m
+        body = (f'garbage-{m}\r\n--bnd--\r\n').encode()
+        kw = {'content_length': len(body), 'content_type': 'multipart/form-data; boundary=bnd'}
     elif kind in ('raise_err', 'raise_resp'):
         path = '/raise/' + m
     elif kind == 'teapot':
